@@ -409,7 +409,11 @@ def r18_9(prog, rep, rule="R18.9"):
                 c = e[2]
                 src = c[3][0][0]
                 if T.contains(src, lambda x: T.is_call_to(x, f"{C.INSP}.get_type_hints", f"{C.INSP}.cached_type_hints", "typing.get_type_hints")):
-                    filt = any(T.contains(cd, lambda x: T.is_call_to(x, f"{C.INSP}.isclassvartype")) for cd in c[4])
+                    flat = []
+                    for cd in c[4]:
+                        flat += list(cd[2]) if cd[0] == "boolop" and cd[1] == "and" else [cd]
+                    # (excluded, not selected: the condition is the *negated* ClassVar test)
+                    filt = any(cd[0] == "not" and T.is_call_to(cd[1], f"{C.INSP}.isclassvartype") for cd in flat)
                     hinted.append(filt)
     if not hinted:
         rep.held(rule, f.qualname, f.loc, "field names are not taken from type hints", nontrivial=False)
